@@ -89,7 +89,7 @@ PROPS = {
     },
     "C08": {
         "file": "C08.v",
-        "streams": [S("qc", 150, 3000, timeout=2400), S("conc", 24, 400, timeout=2400), S("cache", 150, 2500, focus="C08"), S("reg", 20, 300)],
+        "streams": [S("qc", 150, 3000, timeout=2400), S("conc", 24, 400, timeout=2400), S("cache", 150, 2500, focus="C08"), S("reg", 20, 300), S("nl", 100, 2000)],
         "claim": "Theorems: at most one thread is ever inside Close, a second Close waits and then returns, Close after completion returns at once and changes nothing, Close returns only after every write worker exited, producers blocked on a full queue are released with ErrCacheClosed unless their write was still accepted (QueueLts, every schedule); on a closed cache every Set/SetAsync/SetWithCallback refuses and changes nothing, Sync fails, Get/GetWithTTL miss, Exists/Delete are false, Keys is empty, Clear/Cleanup/Close are the identity (CacheProofs); a callback timer that reaches its select after Close returned never calls (CallbackProofs). Tied to /repo by the qc lock-step (a Close caller in a third of the schedules, stepped against the model through flush, broadcast, join and clear), the conc stream's close races (Close landing at random points of in-flight operations of every kind, results after Close checked, goroutine count back to the baseline within 3 s for every policy / listener / cleanup / callback setting), the cache stream (operations after Close) and the reg stream (Remove/CloseAll goroutine deltas).",
         "note": "Trusted: Coq kernel, extraction, driver, harness. Goroutine release for the notifier, cleanup ticker and callback timers is checked by counting goroutines after Close (runtime observation), not proved; the write workers' exit is proved. Known finding F7 (Close called from a removal listener waits for itself) is reported as KNOWN-FINDING.",
         "assumptions": ["'shortly after Close returns' is checked with a 3 s bound"],
